@@ -155,8 +155,9 @@ def process(prog, kind, pidx, seed, growth=False, with_model=True, targets=None,
             todo = sorted(set(range(20)) | set(rng.sample(range(20, n), max_faults - 20)))
         for i in todo:
             variant = VARIANTS[(i + pidx) % len(VARIANTS)]
+            cls = U.FAULT_CLASSES[(i + 3 * pidx) % len(U.FAULT_CLASSES)]
             U.clear_tables()
-            o = U.run_once(job, i, variant, again=True)
+            o = U.run_once(job, i, variant, again=True, cls=cls)
             res["runs"] += 2
             if o["res"] == "timeout":
                 res["timeouts"] = res.get("timeouts", 0) + 1
@@ -184,12 +185,14 @@ def process(prog, kind, pidx, seed, growth=False, with_model=True, targets=None,
             res["fault_kinds"][fk[1] if fk else "?"] = res["fault_kinds"].get(fk[1] if fk else "?", 0) + 1
             if depth >= 2:
                 res["nontrivial"] += 1
+            res["fault_classes"] = res.get("fault_classes", {})
+            res["fault_classes"][cls] = res["fault_classes"].get(cls, 0) + 1
             runs.append((i, variant, o))
         U.clear_tables()
         if tree is not None:
             res["term"] = "(%s, %s, %s)" % (
                 U.c_items(tree, labels), C.cnat(n),
-                C.clist(["(%s, %s, %s)" % (U.c_umsg(v), U.c_fault(t), U.c_obs(o, labels)) for t, v, o in runs]))
+                C.clist(["(%s, %s, %s)" % (U.c_umsg(v, o.get("cls", "Boom")), U.c_fault(t), U.c_obs(o, labels)) for t, v, o in runs]))
             res["runs_meta"] = [(t, v) for t, v, _ in runs]
         # ---- a history: renders with and without faults, tables never cleared in between ----
         if tree is not None and n > 0 and targets is None:
@@ -199,7 +202,7 @@ def process(prog, kind, pidx, seed, growth=False, with_model=True, targets=None,
             cum_meta, cum_rc, cum_cd = set(), 0, 0      # the stacks of earlier renders' objects stay as they were left
             for hi, t in enumerate(hist):
                 v = VARIANTS[(hi + pidx) % len(VARIANTS)]
-                o = U.run_once(job, t, v, keep_alloc=True)
+                o = U.run_once(job, t, v, keep_alloc=True, cls=U.FAULT_CLASSES[(hi + pidx) % len(U.FAULT_CLASSES)])
                 res["runs"] += 1
                 if o["res"] == "timeout":
                     res["timeouts"] = res.get("timeouts", 0) + 1
@@ -215,7 +218,7 @@ def process(prog, kind, pidx, seed, growth=False, with_model=True, targets=None,
                 cum_cd += o.get("cd", 0)
                 items.append((t, v, dict(o, meta=sorted(cum_meta), rc=cum_rc, cd=cum_cd)))
             alloc = list(U.TR.alloc)
-            res["seq_term"] = None if items is None else C.clist(["(%s, %s, %s, %s)" % (U.c_items(tree, labels), U.c_umsg(v), U.c_fault(t), U.c_obs(o, labels, alloc))
+            res["seq_term"] = None if items is None else C.clist(["(%s, %s, %s, %s)" % (U.c_items(tree, labels), U.c_umsg(v, o.get("cls", "Boom")), U.c_fault(t), U.c_obs(o, labels, alloc))
                                        for t, v, o in items])
             res["hist"] = hist
             U.clear_tables()
@@ -472,6 +475,8 @@ def run(tier, seed):
                 chk.dist["tree:" + k] += 1
         for k, v in r["fault_kinds"].items():
             chk.dist["fault-at:" + k] += v
+        for k, v in r.get("fault_classes", {}).items():
+            chk.dist["fault-class:" + k] += v
         chk.dist["fault-below-root"] += r["nontrivial"]
         chk.dist["watchdog-timeouts(inconclusive)"] += r.get("timeouts", 0)
         for trig, what, rep in r["failures"]:
@@ -513,7 +518,9 @@ def run(tier, seed):
     chk.assumptions = [
         "a render is abstracted to its tree of callback points, slot regions, provide bodies, discarded regions and component "
         "instances (reconstructed from the fault-free trace); what Django's template engine does between those events is not modelled",
-        "the faulting callback raises an instance of a plain Exception subclass; BaseException subclasses (KeyboardInterrupt) are not injected",
+        "the faulting callback raises, rotating per run, an instance of a user subclass of Exception / TypeError / KeyError / AttributeError / "
+        "TemplateSyntaxError / ValueError or of a class with attributes and __str__ of its own (the model treats it as an opaque token); "
+        "BaseException subclasses (KeyboardInterrupt) are not injected",
         "render ids are unique (the harness patches the id generator to a counter)",
         "single-threaded renders (threads are C07's subject)",
         "programs that fail by themselves (required slot unfilled, inject without provider) and the dynamic-component variant are judged "
